@@ -650,13 +650,29 @@ def deliver(it, objs, mtype, **fields):
     call(it, objs["RC"], "ws_message", payload)
 
 
+def _boss_open(it, objs):
+    """the Boss has not started closing (S0_empty / S1_lonely / S2_happy)"""
+    cl = it.reg.cluster_engine._cl
+    m = cl.am.machine_of(cl.classes["B"])
+    st = objs["B"].fields["__state"].z
+    return z3.Or([st == m.index(s) for s in ("S0_empty", "S1_lonely", "S2_happy")])
+
+
 def e_msg_welcome(eng, it, objs):
     it.ctx.assume(z3.Not(T_(it, objs, "welcome_rx")))
     setg(objs, "welcome_rx", True)
     w = it.fresh("json", "welcome")
     it.ctx.assume(J.is_jdict(w.z))
     it.ctx.inputs["welcome"] = w
+    was_open = _boss_open(it, objs)
     deliver(it, objs, "welcome", welcome=VJsonDict(w.z))
+    # C08 "WelcomeError when the server said so": an error welcome that reaches a wormhole which is not yet closing
+    # starts the close with that verdict (on the first connection or any later one)
+    said = OJ.is_present(z3.Select(J.d(w.z), z3.StringVal("error")))
+    it.ctx.prove(z3.Implies(z3.And(was_open, said),
+                            z3.And(z3.Not(_boss_open(it, objs)), G(objs, "result_kind").z == RESULT_KINDS.index("unwelcome"))),
+                 "post:C08:welcome-error-ends-with-WelcomeError",
+                 {"kind": "post", "src": "an error welcome received before closing makes WelcomeError the verdict"})
 
 
 def e_msg_claimed(eng, it, objs):
@@ -720,7 +736,12 @@ def e_msg_error(eng, it, objs):
     it.ctx.assume(T_(it, objs, "bound"))
     orig = it.fresh("json", "orig")
     it.ctx.assume(J.is_jdict(orig.z))
+    was_open = _boss_open(it, objs)
     deliver(it, objs, "error", error=inp(it, "error", "str"), orig=VJsonDict(orig.z))
+    it.ctx.prove(z3.Implies(was_open, z3.And(z3.Not(_boss_open(it, objs)),
+                                             G(objs, "result_kind").z == RESULT_KINDS.index("errory"))),
+                 "post:C08:server-error-ends-with-ServerError",
+                 {"kind": "post", "src": "a server error message received before closing makes ServerError the verdict"})
 
 
 def e_msg_ack(eng, it, objs):
